@@ -309,7 +309,19 @@ class Program:
                     counter.tick()
                     return Text("%s/%s" % (task.completed, task.total))
 
-            cols = () if cfg.get("columns") == "default" else ("{task.description}", CountColumn())
+            def stock():
+                # the stock columns, with the per-column render cache (max_refresh, a public
+                # attribute) switched off: with it, what a column shows depends on when it was last
+                # rendered, and the mirror is rendered at other moments than the display
+                from rich.progress import BarColumn, TextColumn, TimeRemainingColumn
+
+                cols = (TextColumn("[progress.description]{task.description}"), BarColumn(),
+                        TextColumn("[progress.percentage]{task.percentage:>3.0f}%"), TimeRemainingColumn())
+                for c in cols:
+                    c.max_refresh = None
+                return cols
+
+            cols = stock() if cfg.get("columns") == "default" else ("{task.description}", CountColumn())
             self.display = Progress(*cols, console=self.console,
                                     auto_refresh=cfg["auto_refresh"], refresh_per_second=cfg["rps"],
                                     transient=cfg["transient"], redirect_stdout=cfg["redirect"],
@@ -317,9 +329,20 @@ class Program:
             self.ids = []
             self.mirror = None
             if cfg.get("columns") == "default":
-                self.mirror = Progress(console=self.pristine.console(), auto_refresh=False, get_time=self.clock.time)
+                class Mirror(Progress):
+                    # remembers the table its most recent refresh() built: update(refresh=True)
+                    # refreshes *before* it records the finish time, add_task/reset refresh at
+                    # their end -- the mirror goes through the very same code, so it is in step
+                    last_table = None
+
+                    def get_renderable(self):
+                        self.last_table = Progress.get_renderable(self)
+                        return self.last_table
+
+                self.mirror = Mirror(*stock(), console=self.pristine.console(), auto_refresh=False, get_time=self.clock.time)
                 self.mirror_ids = []
-                self.mirror_tab = self.mirror.get_renderable()
+                self.mirror.refresh()
+                self.mirror_tab = self.mirror.last_table
                 self.mirror_before = None
 
     # -- expected frames -----------------------------------------------------
@@ -461,6 +484,8 @@ class Program:
             self.probes["restart"] += 1
         o.cursor_hidden_expected = None
         o.hooked = True
+        if self.kind == "progress":
+            self._mirror(lambda m: m.refresh())  # Progress.start() refreshes
         o.begin_op("start", [("frame",)] if self.kind == "progress" else [])
 
     def _after_start(self):
@@ -478,6 +503,8 @@ class Program:
         o.cursor_hidden_expected = None
         if o.tracker is not None:
             o.tracker.stop_begin()
+        if self.kind == "progress":
+            self._mirror(lambda m: m.refresh())  # stop() refreshes one last time
         o.begin_op("stop", [("final",), ("erase",) if self.cfg["transient"] else ("freeze",)])
 
     def _op_stop_end(self):
@@ -550,9 +577,13 @@ class Program:
             self.display.stop()
             self._op_stop_end()
         elif k == "refresh":
+            if self.kind == "progress":
+                self._mirror(lambda m: m.refresh())
             o.begin_op(op, [("frame",)])
             self.display.refresh()
             o.end_op()
+            if self.kind == "progress":
+                self._model_done()
         elif k == "update":
             new = self._wrap(op[1])
             self.cur_desc = [self.cur_desc[-1], op[1]]
@@ -594,7 +625,7 @@ class Program:
                             ts[i][key] = a[key]
 
                 self._model_op(mut)
-                self._mirror(lambda m: m.update(self.mirror_ids[i], **{k: v for k, v in a.items() if k != "refresh"}))
+                self._mirror(lambda m: m.update(self.mirror_ids[i], **a))
                 o.begin_op(op, [("frame",)] if a.get("refresh") else [])
                 self.display.update(tid, **a)
             elif k == "remove":
@@ -628,7 +659,7 @@ class Program:
         with self.sim.atomic():
             self.mirror_before = self.mirror_tab
             fn(self.mirror)
-            self.mirror_tab = self.mirror.get_renderable()
+            self.mirror_tab = self.mirror.last_table  # unchanged if the operation did not refresh
 
     # -- post conditions -----------------------------------------------------
     def post_checks(self):
